@@ -131,7 +131,9 @@ def check(ctx):
             ctx.note(f"SIB-17: regex.{f.name} has no namesake in the re module; not judged")
             continue
         n_re += 1
-        re_calls = [c for _, c in calls_in(f) if (repo.dotted(f, c.func) or "").startswith("re.")]
+        # the matching functions of re; helpers such as re.escape / re.compile(flags) are not results
+        RE_MATCHERS = {"re.findall", "re.finditer", "re.fullmatch", "re.match", "re.search", "re.split", "re.sub", "re.subn"}
+        re_calls = [c for _, c in calls_in(f) if (repo.dotted(f, c.func) or "") in RE_MATCHERS]
         names = {repo.dotted(f, c.func) for c in re_calls}
         ok = names == {f"re.{f.name}"} and len(re_calls) == 2
         ctx.ob("SIB-17", f, f"re calls {sorted(names)}", f.node, ok,
